@@ -140,6 +140,11 @@ func c16Pair(c *fw.Ctx, ofs, n int) {
 		if nb := r.GetNbits(); nb != uint16(n) {
 			c.Violation(kind, "width", "NewNXRange.GetNbits", fmt.Sprintf("width %d, want %d", nb, n))
 		}
+		// asking a range for its 32-bit mask (whatever that means for a range beyond bit 31) must not change the range
+		fw.Recover(func() { r.ToUint32Mask() })
+		if w, o, nb := r.ToOfsBits(), r.GetOfs(), r.GetNbits(); w != want || o != uint16(ofs) || nb != uint16(n) {
+			c.Violation(kind, "word", "after-ToUint32Mask", fmt.Sprintf("after ToUint32Mask the same range answers word %#04x offset %d width %d, want %#04x / %d / %d", w, o, nb, want, ofs, n))
+		}
 		if hooksOn {
 			c.Count("hook_pairs", 1)
 			if w := hookEncodeOfsNbits(uint16(ofs), uint16(n)); w != want {
